@@ -504,6 +504,17 @@ pub fn idiom_n(r: &mut Rng, d: Dim, out: &mut Vec<u8>, k: u64) {
             out.extend(format!("\x1b[{fgbg};5;{idx}m").as_bytes());
             gen_text(r, out);
         }
+        79 if d.rows >= 4 && r.chance(1, 4) => {
+            // cursor strictly above the region and not on the first row: RI / CUU / SD must treat it as
+            // "outside" (RI just moves up one row, nothing scrolls)
+            let t = 3 + r.below(u64::from(d.rows) - 3);
+            let bt = (t + 1 + r.below(2)).min(u64::from(d.rows));
+            if t < bt {
+                let row = 2 + r.below(t - 2);
+                out.extend(format!("\x1b[{t};{bt}r\x1b[{row};{}H", 1 + r.below(u64::from(d.cols))).as_bytes());
+                out.extend(*r.pick(&[&b"\x1bM"[..], b"\x1bM\x1bM", b"\x1b[A", b"\x1bD", b"\x1b[T", b"\x1bM"]));
+            }
+        }
         79 => {
             // a scroll region with the cursor outside it, then a line operation
             if d.rows >= 3 {
